@@ -138,7 +138,9 @@ func ruleP7(c *Ctx) {
 			continue
 		}
 		info := p.TypesInfo
-		checkBlock := func(stmts []ast.Stmt, path string) {
+		var checkBlock func(stmts []ast.Stmt, path string)
+		locName := "loc"
+		checkBlock = func(stmts []ast.Stmt, path string) {
 			// direct statements of this block only
 			var add ast.Expr
 			appends, loopAppends := 0, 0
@@ -146,8 +148,21 @@ func ruleP7(c *Ctx) {
 			for _, st := range stmts {
 				switch s := st.(type) {
 				case *ast.AssignStmt:
+					// loc, ocodes = helper(loc, ocodes, …): the helper's body is the clause
+					if accumulatorHelperCall(s) {
+						call := s.Rhs[0].(*ast.CallExpr)
+						if fn, ok := calleeOf(info, call).(*types.Func); ok {
+							if hd, _ := c.L.FuncDecl("internal/pass1", fn.Name()); hd != nil && hd.Body != nil && hd.Type.Params != nil && len(hd.Type.Params.List) >= 1 && len(hd.Type.Params.List[0].Names) >= 1 {
+								saved := locName
+								locName = hd.Type.Params.List[0].Names[0].Name
+								checkBlock(hd.Body.List, path+"→"+fn.Name())
+								locName = saved
+								continue
+							}
+						}
+					}
 					if s.Tok == token.ADD_ASSIGN {
-						if id, ok := s.Lhs[0].(*ast.Ident); ok && id.Name == "loc" {
+						if id, ok := s.Lhs[0].(*ast.Ident); ok && id.Name == locName {
 							add = s.Rhs[0]
 						}
 					}
